@@ -46,6 +46,16 @@ Theorem targets_refine :
 Proof. vm_compute. repeat split. Qed.
 Print Assumptions targets_refine.
 
+(* which identifier of a wire message (id / thid / pthid, each present or absent) the services take as protocol
+   instance id is the published DIDComm threading rule, for every message type, version and direction; and the
+   persisted state they read is the state of that very identifier *)
+Theorem resolve_refines :
+  resolve_refines_b ic_resolve_spec ic_resolve = true /\
+  resolve_refines_b pp_resolve_spec pp_resolve = true /\
+  resolve_refines_b intro_resolve_spec intro_resolve = true.
+Proof. vm_compute. repeat split. Qed.
+Print Assumptions resolve_refines.
+
 (* hence the machine's relation lies inside the published graph, for ALL pairs of states *)
 Theorem sedge_in_published_graph : forall a b,
   (sedge ic_proto a b = true -> spec_edge ic_names ic_spec a b = true) /\
@@ -85,9 +95,20 @@ Print Assumptions accepted_allowed.
 
 (* a step only touches the thread it works on *)
 Theorem threads_independent : forall p s o t',
-  (forall t, op_thread s o = Some t -> t' <> t) -> cur p (fst (step p s o)) t' = cur p s t'.
+  (forall t, op_thread p s o = Some t -> t' <> t) -> cur p (fst (step p s o)) t' = cur p s t'.
 Proof. exact step_other. Qed.
 Print Assumptions threads_independent.
+
+(* WIRE LEVEL (full): whatever identifiers a message carries (absent, equal, naming any other thread or instance),
+   if it is not rejected then the thread it resolves to admitted it in its current persisted state, and no other
+   thread's persisted state changes *)
+Theorem wire_threads_independent : forall p s outbound m v3 flag wi wth wpth fresh f tape,
+  fst (snd (step p s (Wire outbound m v3 flag wi wth wpth fresh f tape))) <> RReject ->
+  exists t x, wire_thread p m v3 outbound wi wth wpth fresh = Some t /\ target p m v3 outbound = Some x /\
+              can p (cur p s t) x = true /\
+              forall t', t' <> t -> cur p (fst (step p s (Wire outbound m v3 flag wi wth wpth fresh f tape))) t' = cur p s t'.
+Proof. exact wire_accepted_gen. Qed.
+Print Assumptions wire_threads_independent.
 
 (* ---------- THE PROPERTY: full statement, refuted as the code is; partial under the busy discipline ---------- *)
 
@@ -187,6 +208,18 @@ Example terminal_stable_nonvacuous :
   terminal pp_proto (cur pp_proto (final pp_proto s0 ops1) 1) = true /\
   disciplined pp_proto s0 (ops1 ++ [Msg false 4 false false 1 nofault []; Msg true 1 false false 1 nofault []]) = true.
 Proof. vm_compute. split; reflexivity. Qed.
+
+(* wire messages: a v3 presentation naming a fresh thread 2 with pthid = thread 1 (request sent) is checked against
+   thread 2 (start) and rejected, thread 1 is untouched; a request without id but with a thid is refused; an
+   issue-credential message with a pthid is handled for the instance the pthid names *)
+Example wire_nonvacuous :
+  let ops := [Wire true 1 true false (Some 1) None None 900 nofault [];
+              Wire false 2 true false (Some 7) (Some 2) (Some 1) 901 nofault []] in
+  map fst (snd (run pp_proto s0 ops)) = [ROk; RReject] /\ cur pp_proto (final pp_proto s0 ops) 1 = 4 /\
+  wire_thread pp_proto 2 true false (Some 7) (Some 2) (Some 1) 901 = Some 2 /\
+  wire_thread ic_proto 2 true false None (Some 1) None 902 = None /\
+  wire_thread ic_proto 2 true false (Some 7) (Some 2) (Some 1) 903 = Some 1.
+Proof. vm_compute. repeat split. Qed.
 
 (* guarded histories WITH faults: present-proof prover whose presentation fails to send (abandoned, done never
    announced); a failing state write; DID Exchange inviter: request, API accept, ack, late second accept refused *)
